@@ -15,11 +15,43 @@
  * loop annotation / by memrec_find_var's contract) */
 size_t vg_r, vg_r2, vg_fidx;
 
+/* Units that define VERIF_REAL_MSGS / VERIF_REAL_STDIO before vprelude.h get no bodies for
+ * libast_dprintf / fprintf / fflush / time from env.h: goto-instrument 6.11 aborts (invariant
+ * violation in goto_inline, parameter_assignments) when a function that has a loop contract AND is
+ * not the enforced function calls a function WITH a body inside that loop (memrec_find_var's D_MEM
+ * diagnostic inside its search loop, reached from memrec_rem_var / memrec_chg_var).  Without a
+ * body cbmc treats these calls as returning an arbitrary value and writing nothing, which is what
+ * env.h's bodies do as well.  The globals and the two functions whose effect matters are given here. */
+#ifdef VERIF_REAL_MSGS
+unsigned int libast_debug_level;
+unsigned long libast_debug_flags;
+spif_charptr_t libast_program_name = (spif_charptr_t) "verif";
+spif_charptr_t libast_program_version = (spif_charptr_t) "0";
+/* fatal error ends the process: the path ends here */
+void libast_fatal_error(const char *fmt, ...) { __CPROVER_assume(0); }
+#endif
+
+#ifdef VERIF_REAL_STDIO
+/* stdio / time used by the diagnostics: body-less (see above).  They are renamed so that cbmc does
+ * not link its own vfprintf/time library models in their place (va_list modelling: the solver ran
+ * out of memory); a body-less function returns an arbitrary value and writes nothing. */
+int verif_mh_fprintf(FILE *f, const char *fmt, ...);
+int verif_mh_fflush(FILE *f);
+time_t verif_mh_time(time_t *t);
+# define fprintf verif_mh_fprintf
+# define fflush  verif_mh_fflush
+# define time    verif_mh_time
+#endif
+
 /* anchor for a walking pointer whose element type is not char (env.h's VERIF_ANCHOR adds the byte
  * offset in units of the base type): identity re-basing through a byte pointer */
 #define VERIF_MH_ANCHOR(p, base, T) do { \
     __CPROVER_assert(__CPROVER_same_object((p), (base)), "anchor: " #p " stays inside object of " #base); \
     (p) = (T) ((char *) (base) + __CPROVER_POINTER_OFFSET(p)); } while (0)
+
+/* re-basing of a walking pointer on an index: identity assignment whose identity is an obligation */
+#define VERIF_MH_REBASE(p, e) do { \
+    __CPROVER_assert((p) == (e), "rebase: " #p " == " #e); (p) = (e); } while (0)
 
 #ifdef VERIF_MEMHASH_REALLOC_ELEM_T
 # ifdef VERIF_REALLOC_ELEM_T
@@ -35,7 +67,6 @@ void *realloc(void *p, size_t n)
 {
     if (p == NULL) return malloc(n);
     __CPROVER_assert(__CPROVER_POINTER_OFFSET(p) == 0, "realloc: pointer is the start of a block");
-    __CPROVER_assert(__CPROVER_DYNAMIC_OBJECT(p), "realloc: pointer is a heap block");
     void *r = malloc(n);
     size_t m = __CPROVER_OBJECT_SIZE(p);
     if (n < m) m = n;
@@ -44,6 +75,40 @@ void *realloc(void *p, size_t n)
     if (vg_r2 < m / sizeof(VERIF_MEMHASH_REALLOC_ELEM_T))
         ((VERIF_MEMHASH_REALLOC_ELEM_T *) r)[vg_r2] = ((VERIF_MEMHASH_REALLOC_ELEM_T *) p)[vg_r2];
     free(p);
+    return r;
+}
+#endif
+
+#ifdef VERIF_MEMHASH_STRNCPY_MODEL
+/* spiftool_safe_strncpy (src/strings.c) as a BODY that is the executable rendering of its contract:
+ * exactly the clauses proved in units/C13/safe_strncpy.c, with the frame "the size bytes at dest"
+ * (proved by unit C15.dep.safe_strncpy; contract text: contracts/mem.h).  ASSUMES nothing beyond
+ * that contract: the preconditions are asserted, every byte of dest[0..size) is set to an
+ * arbitrary value, vg_exit is set to an arbitrary value, and only for vg_exit == vg_j the
+ * terminator position, the ghost byte vg_k and the return value are fixed (that is all the
+ * contract promises).  Why not --replace-call-with-contract: DFCC's replacement havocs
+ * object_upto(dest, size) with an array_replace inside the table object; z3, cvc5 and minisat all
+ * fail (time-out / out of memory) on memrec_add_var and memrec_chg_var with it. */
+spif_bool_t spiftool_safe_strncpy(spif_charptr_t dest, const spif_charptr_t src, spif_int32_t size)
+{
+    __CPROVER_assert(size > 0 && __CPROVER_w_ok(dest, (size_t) size), "safe_strncpy requires: size > 0, dest holds size bytes");
+    __CPROVER_assert(vg_n1 <= VCAP && __CPROVER_r_ok(src, vg_n1 + 1) && ((const char *) src)[vg_n1] == 0 &&
+                     (!(vg_j < vg_n1) || ((const char *) src)[vg_j] != 0),
+                     "safe_strncpy requires: src is a C string of exactly vg_n1 characters (seen at vg_j)");
+    size_t lim = (size_t) size - 1, len = vg_n1 < lim ? vg_n1 : lim;
+    /* the new contents are prepared in a local and stored with ONE block assignment (every single
+     * byte store into the table costs the SAT back end ~350 MB); both call sites pass
+     * size == sizeof(file[]) == SPIFMEM_FNAME_LEN + 1, which is asserted */
+    __CPROVER_assert(size == SPIFMEM_FNAME_LEN + 1, "safe_strncpy model: size is sizeof(spifmem_ptr_t.file)");
+    struct vg_file_s { spif_char_t b[SPIFMEM_FNAME_LEN + 1]; } tmp;     /* arbitrary bytes */
+    vg_exit = nondet_size_t();
+    spif_bool_t r = nondet_bool() ? TRUE : FALSE;
+    if (vg_exit == vg_j) {
+        tmp.b[len] = 0;
+        if (vg_k < len) tmp.b[vg_k] = src[vg_k];
+        r = (vg_n1 <= lim) ? TRUE : FALSE;
+    }
+    *(struct vg_file_s *) dest = tmp;
     return r;
 }
 #endif
